@@ -209,6 +209,10 @@ func (f *Polynomial) SetScale(c ff.Element) *Polynomial {
 func (f *Polynomial) Pow(n uint) *Polynomial {
 	const op = "Computing polynomial power"
 
+	if tmp := hasErr(op, f); tmp != nil {
+		return tmp
+	}
+
 	out := f.baseRing.Polynomial(map[[2]uint]ff.Element{
 		{0, 0}: f.BaseField().One(),
 	})
@@ -217,9 +221,9 @@ func (f *Polynomial) Pow(n uint) *Polynomial {
 	for n > 0 {
 		if n%2 == 1 {
 			out.Mult(g)
-			if out.Err() != nil {
+			if err := out.Err(); err != nil {
 				out = f.baseRing.Zero()
-				out.err = errors.Wrap(op, errors.Inherit, out.Err())
+				out.err = errors.Wrap(op, errors.Inherit, err)
 				return out
 			}
 		}
